@@ -32,6 +32,7 @@ contained in the static method backend_info defined by each subclass target.
 
 import abc
 import math
+import os
 from collections import Counter
 
 import numpy as np
@@ -676,6 +677,8 @@ class Backend(abc.ABC):
 
             # Generate samples from distribution. Cut in chunks to ensure samples fit in memory, gradually accumulate
             chunk_size = 10**7
+            if os.environ.get("TANGELO_VERIF"):  # verification hook (off by default): lets a simulator shrink the chunk size
+                chunk_size = int(os.environ.get("TANGELO_VERIF_CHUNK_SIZE", chunk_size))
             n_chunks = self.n_shots // chunk_size
             freqs_shots = Counter()
 
